@@ -41,6 +41,7 @@ const (
 	OpCreate = iota
 	OpUpdate
 	OpDelete
+	OpRewrite // one iteration of the asynchronous repair (retry goroutine); Rev = revision of the queued write
 )
 
 // KReq is one client request on key number Key of the case.
@@ -58,12 +59,14 @@ func (q KReq) Coq() string {
 		return App("RqCreate", N(uint64(q.Key)), Bytes(q.Val))
 	case OpUpdate:
 		return App("RqUpdate", N(uint64(q.Key)), Bytes(q.Val), N(q.Rev))
+	case OpRewrite:
+		return App("RqRewrite", N(uint64(q.Key)), N(q.Rev))
 	default:
 		return App("RqDelete", N(uint64(q.Key)), N(q.Rev))
 	}
 }
 func (q KReq) JSON() interface{} {
-	return map[string]interface{}{"op": []string{"create", "update", "delete"}[q.Op], "key": q.Key, "val": string(q.Val), "rev": q.Rev}
+	return map[string]interface{}{"op": []string{"create", "update", "delete", "async-rewrite"}[q.Op], "key": q.Key, "val": string(q.Val), "rev": q.Rev}
 }
 
 // KResp is a canonical response.
@@ -86,6 +89,8 @@ func (r KResp) Coq() string {
 		kv = Some(Pair(Bytes(r.KvVal), N(r.KvRev)))
 	}
 	switch r.Op {
+	case OpRewrite:
+		return App("RespRewrite", N(r.Hdr))
 	case OpCreate:
 		return App("RespCreate", N(r.Hdr), Bool(r.Succ))
 	case OpUpdate:
@@ -176,6 +181,7 @@ type KCase struct {
 	FinalRev      uint64
 	Stalled       bool
 	MarkerVisible bool
+	MarkerWatched bool
 	Choices       []int   // thread chosen at each step
 	Alive         [][]int // threads that could have been chosen at each step
 	Note          string
@@ -235,7 +241,7 @@ func (c *KCase) JSON() interface{} {
 	}
 	return map[string]interface{}{"engine": c.Engine, "d0": c.D0, "init": st(c.Init), "programs": progs, "steps": steps,
 		"final": st(c.Final), "marker": c.Marker, "final_revision": c.FinalRev, "stalled": c.Stalled,
-		"marker_visible": c.MarkerVisible, "note": c.Note}
+		"marker_visible": c.MarkerVisible, "marker_watched": c.MarkerWatched, "note": c.Note}
 }
 
 // Outcomes lists the outcome classes seen in the case.
@@ -283,21 +289,28 @@ type kbThread struct {
 }
 
 type KBNode struct {
-	Engine string
-	Cidx0  bool
-	inner  storage.KvStorage
-	kv     *Wrap
-	B      backend.Backend
-	S      *Sched
-	closer func()
-	caseNo int
-	mu     sync.Mutex
-	ctl    map[int64]*kbThread // by goroutine id
-	cd     coder.Coder
-	Dead   bool // a case stalled: the node is not reused
-	// SeqPark, when true, parks the sequencer goroutine at its idle point
-	seqPark   bool
-	seqParkMu sync.Mutex
+	Engine   string
+	Cidx0    bool
+	inner    storage.KvStorage
+	kv       *Wrap
+	B        backend.Backend
+	S        *Sched
+	closer   func()
+	caseNo   int
+	mu       sync.Mutex
+	ctl      map[int64]*kbThread // by goroutine id
+	cd       coder.Coder
+	Dead     bool // a case stalled: the node is not reused
+	mainGoid int64
+	// the retry goroutine, adopted as a logical thread while a case with an uncertain write runs
+	adoptRetry    bool
+	retryTh       *Thread
+	retryCtl      *kbThread
+	uncertainNext bool
+	// a watcher on the whole prefix, started when the node is created
+	watchMu sync.Mutex
+	watched map[string]uint64 // key -> highest event revision delivered
+	wcancel context.CancelFunc
 }
 
 var kbInjected = errors.New("verif: injected storage error")
@@ -317,6 +330,7 @@ func KBSeqPark(p bool) {
 
 func kbInstallHook() {
 	kbHookOnce.Do(func() {
+		backend.VerifSetIntervals(30*time.Millisecond, 10*time.Millisecond)
 		backend.VerifYieldHook = func(p string) {
 			if p == "seq.idle" {
 				for {
@@ -346,10 +360,32 @@ func NewKBNode(engine, scratch string) (*KBNode, error) {
 	n.kv.CommitFault = n.commitFault
 	n.B = backend.NewBackend(n.kv, backend.Config{Prefix: KBPrefix, Identity: "kbsched"}, &NopMetrics{})
 	n.B.SetCurrentRevision(KBInitRev)
+	n.mainGoid = GoID()
+	n.watched = map[string]uint64{}
+	ctx, cancel := context.WithCancel(context.Background())
+	n.wcancel = cancel
+	ch, err := n.B.Watch(ctx, KBPrefix+"/", 0)
+	if err != nil {
+		return nil, err
+	}
+	go func() {
+		for batch := range ch {
+			n.watchMu.Lock()
+			for _, ev := range batch {
+				if ev.Kv != nil && ev.Revision > n.watched[string(ev.Kv.Key)] {
+					n.watched[string(ev.Kv.Key)] = ev.Revision
+				}
+			}
+			n.watchMu.Unlock()
+		}
+	}()
 	return n, nil
 }
 
 func (n *KBNode) Close() {
+	if n.wcancel != nil {
+		n.wcancel()
+	}
 	if n.closer != nil {
 		n.closer()
 	}
@@ -363,12 +399,28 @@ func (n *KBNode) thread() *kbThread {
 }
 
 func (n *KBNode) before(kind string, key []byte) error {
-	th := n.thread()
-	if th == nil {
-		return nil
-	}
 	if kind != "iter" && kind != "get" && kind != "batch" {
 		return nil
+	}
+	th := n.thread()
+	if th == nil {
+		id := GoID()
+		n.mu.Lock()
+		adopt := n.adoptRetry && id != n.mainGoid
+		if adopt {
+			n.adoptRetry = false
+		}
+		n.mu.Unlock()
+		if !adopt {
+			return nil
+		}
+		// the retry goroutine's first engine call for the queued uncertain write
+		t := n.S.Adopt(fmt.Sprintf("c%d.retry", n.caseNo))
+		th = &kbThread{}
+		n.mu.Lock()
+		n.ctl[id] = th
+		n.retryTh, n.retryCtl = t, th
+		n.mu.Unlock()
 	}
 	n.S.Yield("engine." + kind)
 	switch th.env {
@@ -386,6 +438,17 @@ func (n *KBNode) before(kind string, key []byte) error {
 
 func (n *KBNode) commitFault() (error, bool) {
 	th := n.thread()
+	if th == nil {
+		n.mu.Lock()
+		u := n.uncertainNext
+		n.uncertainNext = false
+		n.mu.Unlock()
+		if u {
+			// the batch is applied, the caller is told that the outcome is unknown
+			return storage.NewErrUncertainResult(errors.New("verif: injected timeout")), true
+		}
+		return nil, false
+	}
 	if th != nil && th.abortNext {
 		th.abortNext = false
 		// what the TiKV adapter returns for a write conflict detected at commit (tikv/batch.go)
@@ -507,6 +570,10 @@ type KBSpec struct {
 	// pending engine call (at is "start" or "engine.<kind>").
 	Pick func(step int, alive []int, at []string) (int, int)
 	Note string
+	// Rewrite: after the initial state exists, key 0 (which must be live) receives an update whose
+	// commit is applied but reported as uncertain; the retry goroutine's repair of it then takes part
+	// in the schedule as the last thread (program: one OpRewrite).
+	Rewrite bool
 }
 
 func (n *KBNode) seqCall(q KReq, key []byte) (KResp, error) {
@@ -580,6 +647,34 @@ func (n *KBNode) RunCase(spec KBSpec) (*KCase, error) {
 		n.Dead = true
 		return c, err
 	}
+	var rwRev uint64
+	if spec.Rewrite {
+		st0, err := n.KeyStates(1)
+		if err != nil || !st0[0].HasIdx || st0[0].IdxDel {
+			return c, fmt.Errorf("rewrite case needs a live key 0")
+		}
+		cur := n.B.GetCurrentRevision()
+		n.mu.Lock()
+		n.uncertainNext, n.adoptRetry, n.retryTh, n.retryCtl = true, true, nil, nil
+		n.mu.Unlock()
+		if r := n.Do(KReq{Op: OpUpdate, Val: []byte("unc"), Rev: st0[0].IdxRev}, n.Key(0)); !r.Err {
+			return c, fmt.Errorf("the uncertain update was not reported as an error")
+		}
+		rwRev = cur + 1
+		if !n.WaitRev(rwRev, 2*time.Second) {
+			n.Dead = true
+			return c, fmt.Errorf("stalled after the uncertain update")
+		}
+		ok := WaitUntil(3*time.Second, func() bool { n.mu.Lock(); defer n.mu.Unlock(); return n.retryTh != nil })
+		if !ok {
+			n.Dead = true
+			return c, fmt.Errorf("the retry goroutine never read the key of the uncertain write")
+		}
+		if p, _ := n.S.Wait(n.retryTh, 2*time.Second); p != "engine.iter" {
+			n.Dead = true
+			return c, fmt.Errorf("the retry goroutine parked at %q", p)
+		}
+	}
 	c.D0 = n.B.GetCurrentRevision()
 	init, err := n.KeyStates(nkeys)
 	if err != nil {
@@ -599,13 +694,39 @@ func (n *KBNode) RunCase(spec KBSpec) (*KCase, error) {
 	if spec.Fix != nil {
 		spec.Fix(live, c.D0, progs)
 	}
+	rw := -1
+	if spec.Rewrite {
+		rw = len(progs)
+		progs = append(progs, []KReq{{Op: OpRewrite, Key: 0, Rev: rwRev}})
+	}
 	c.Progs = progs
 
 	// start the client threads
 	threads := make([]*Thread, len(progs))
 	ctls := make([]*kbThread, len(progs))
+	rwVirtual := spec.Rewrite
+	if spec.Rewrite {
+		threads[rw], ctls[rw] = n.retryTh, n.retryCtl
+	}
+	retire := func() { // the retry goroutine stops being a logical thread
+		if rw < 0 || threads[rw] == nil {
+			return
+		}
+		th := threads[rw]
+		th.Free = true
+		n.S.mu.Lock()
+		delete(n.S.threads, th.goid)
+		n.S.mu.Unlock()
+		n.mu.Lock()
+		delete(n.ctl, th.goid)
+		n.adoptRetry = false
+		n.mu.Unlock()
+	}
 	for i := range progs {
 		i := i
+		if i == rw {
+			continue
+		}
 		ctl := &kbThread{}
 		ctls[i] = ctl
 		reg := make(chan struct{})
@@ -650,7 +771,11 @@ func (n *KBNode) RunCase(spec KBSpec) (*KCase, error) {
 		for i := range progs {
 			if !done[i] {
 				alive = append(alive, i)
-				at = append(at, threads[i].Point)
+				if i == rw && rwVirtual {
+					at = append(at, "start")
+				} else {
+					at = append(at, threads[i].Point)
+				}
 			}
 		}
 		if len(alive) == 0 {
@@ -662,6 +787,54 @@ func (n *KBNode) RunCase(spec KBSpec) (*KCase, error) {
 		}
 		t, env := spec.Pick(step, alive, at)
 		point := threads[t].Point
+		if t == rw {
+			env = EnvOk
+			c.Choices = append(c.Choices, t)
+			c.Alive = append(c.Alive, alive)
+			if rwVirtual {
+				// the repair was "invoked" when the retry goroutine picked the queue head; it already stands
+				// before its read
+				rwVirtual = false
+				c.Steps = append(c.Steps, KStep{T: t, Env: EnvOk, Kind: "start", Sample: n.B.GetCurrentRevision()})
+				continue
+			}
+			before, _ := n.KeyStates(1)
+			th := threads[t]
+			th.resume <- struct{}{}
+			parked, finished := false, false
+			deadline := time.Now().Add(3 * time.Second)
+			for !parked && !finished && time.Now().Before(deadline) {
+				select {
+				case p := <-th.parked:
+					th.Point, parked = p, true
+				default:
+					if backend.VerifRetryQueueSize(n.B) == 0 {
+						finished = true
+					} else {
+						time.Sleep(100 * time.Microsecond)
+					}
+				}
+			}
+			if !parked && !finished {
+				runErr = fmt.Errorf("the retry goroutine blocked after step %d", step)
+				n.Dead = true
+				break
+			}
+			st := KStep{T: t, Env: EnvOk, Kind: point}
+			if finished {
+				done[t] = true
+				after, _ := n.KeyStates(1)
+				r := KResp{Op: OpRewrite}
+				if len(before) == 1 && len(after) == 1 && after[0].HasIdx && after[0].IdxRev != before[0].IdxRev {
+					r.Hdr = after[0].IdxRev
+				}
+				st.Resps = []KResp{r}
+				retire()
+			}
+			st.Sample = n.B.GetCurrentRevision()
+			c.Steps = append(c.Steps, st)
+			continue
+		}
 		if point == "start" {
 			env = EnvOk
 		}
@@ -693,7 +866,17 @@ func (n *KBNode) RunCase(spec KBSpec) (*KCase, error) {
 	if runErr != nil {
 		// let parked threads go so that nothing is left behind
 		for i, th := range threads {
-			if !done[i] {
+			if i == rw {
+				if !done[i] {
+					retire()
+					select {
+					case th.resume <- struct{}{}:
+					case <-time.After(100 * time.Millisecond):
+					}
+				}
+				continue
+			}
+			if !done[i] && th != nil {
 				n.S.Release(th, time.Second)
 			}
 		}
@@ -718,6 +901,13 @@ func (n *KBNode) RunCase(spec KBSpec) (*KCase, error) {
 				c.MarkerVisible = true
 			}
 		}
+	}
+	if !c.Stalled {
+		c.MarkerWatched = WaitUntil(2*time.Second, func() bool {
+			n.watchMu.Lock()
+			defer n.watchMu.Unlock()
+			return n.watched[string(mk)] == c.Marker
+		})
 	}
 	if c.Stalled {
 		n.Dead = true
